@@ -1,12 +1,12 @@
 //! C02 — the parser reports exactly the events of the VT500 state machine.
 use anstyle_parse::state::{state_change, Action, State};
-use checks::real::{diff_events, new_parser, parse_events, Recorder};
+use checks::oracle::{check_clone, check_cansub, check_events};
 use proptest::prelude::*;
 use serde_json::{json, Value};
 use vcore::drive::{case_bytes, enum_par, stream_par, Verdict};
 use vcore::gen::{self, StreamCfg};
 use vcore::rt::{self, digest, Acc, Args, Report};
-use vcore::vt::{self, Ac, Ev, St};
+use vcore::vt::{self, Ac, St};
 
 const RULE: &str = "A: all 16x256 (state, byte) pairs of the transition function. B: every byte string of the stated lengths over the class-representative alphabets. C: seeded grammar streams (G-STREAM, all classes). D: stream = prefix . CAN|SUB . rest. E: parser cloned at a generated split point. Non-trivial = the stream makes the parser report at least one CSI/ESC/OSC/DCS event (distinct by input bytes); for A every pair is distinct and counted.";
 
@@ -69,90 +69,8 @@ fn check_pair(si: usize, b: u8) -> Result<(), String> {
     Ok(())
 }
 
-fn check_events(bytes: &[u8]) -> Result<bool, String> {
-    let r = parse_events(bytes);
-    if let Some(e) = r.api_errors.first() {
-        return Err(e.clone());
-    }
-    let m = vt::events(bytes);
-    if let Some(d) = diff_events(&r.ev, &m) {
-        return Err(d);
-    }
-    Ok(m.iter().any(Ev::is_dispatch))
-}
 
-/// D: events(prefix·x·rest) = events(prefix·x) ++ events_fresh(rest), and the
-/// tail of events(prefix·x) is what abandoning requires.
-fn check_cansub(prefix: &[u8], x: u8, rest: &[u8]) -> Result<bool, String> {
-    let mut px = prefix.to_vec();
-    px.push(x);
-    let head = parse_events(&px);
-    let mut whole = px.clone();
-    whole.extend_from_slice(rest);
-    let all = parse_events(&whole);
-    let fresh = parse_events(rest);
-    let mut want = head.ev.clone();
-    want.extend(fresh.ev.iter().cloned());
-    if let Some(d) = diff_events(&all.ev, &want) {
-        return Err(format!(
-            "after prefix + {:#04x} the rest is not parsed as by a fresh parser: {d}",
-            x
-        ));
-    }
-    // what the abandoning byte itself must produce, by the state the
-    // reference machine is in after the prefix
-    let before = parse_events(prefix);
-    let tail = &head.ev[before.ev.len().min(head.ev.len())..];
-    let st = vt::state_after(prefix);
-    let ok = match st {
-        St::Utf8 => tail == [Ev::Print('\u{fffd}')],
-        St::DcsPassthrough => tail == [Ev::Unhook, Ev::Exec(x)],
-        St::OscString => {
-            tail.len() == 2
-                && matches!(&tail[0], Ev::Osc { bell: false, .. })
-                && tail[1] == Ev::Exec(x)
-        }
-        _ => tail == [Ev::Exec(x)],
-    };
-    if !ok {
-        return Err(format!(
-            "byte {:#04x} arriving in state {:?} produced {:?}",
-            x, st, tail
-        ));
-    }
-    if st != St::Utf8 && vt::state_after(&px) != St::Ground {
-        return Err("reference machine not in ground after CAN/SUB".into());
-    }
-    Ok(st != St::Ground)
-}
 
-/// E: a parser cloned after `split` bytes continues identically and compares
-/// equal to its original.
-fn check_clone(bytes: &[u8], split: usize) -> Result<bool, String> {
-    let split = split.min(bytes.len());
-    let mut p = new_parser();
-    let mut r = Recorder::default();
-    for b in &bytes[..split] {
-        p.advance(&mut r, *b);
-    }
-    let mut q = p.clone();
-    if q != p {
-        return Err("a cloned parser does not compare equal to its original".into());
-    }
-    let n0 = r.ev.len();
-    let mut r2 = Recorder::default();
-    for b in &bytes[split..] {
-        p.advance(&mut r, *b);
-        q.advance(&mut r2, *b);
-    }
-    if let Some(d) = diff_events(&r2.ev, &r.ev[n0..]) {
-        return Err(format!("clone diverges after split at {split}: {d}"));
-    }
-    if q != p {
-        return Err("clone and original differ after the same input".into());
-    }
-    Ok(r.ev.iter().any(Ev::is_dispatch))
-}
 
 fn run(args: &Args, rep: &mut Report) {
     let tier = args.tier;
